@@ -1,25 +1,4 @@
         requires
             stmt_labels_filled(self.stmt),
         ensures
-            self.stmt is Add ==> enc_ok(r, enc_spec(self.stmt, self.line)),
-            self.stmt is And ==> enc_ok(r, enc_spec(self.stmt, self.line)),
-            self.stmt is Branch ==> enc_ok(r, enc_spec(self.stmt, self.line)),
-            self.stmt is Jump ==> enc_ok(r, enc_spec(self.stmt, self.line)),
-            self.stmt is JumbSub ==> enc_ok(r, enc_spec(self.stmt, self.line)),
-            self.stmt is JumpSubReg ==> enc_ok(r, enc_spec(self.stmt, self.line)),
-            self.stmt is Load ==> enc_ok(r, enc_spec(self.stmt, self.line)),
-            self.stmt is LoadInd ==> enc_ok(r, enc_spec(self.stmt, self.line)),
-            self.stmt is LoadOffs ==> enc_ok(r, enc_spec(self.stmt, self.line)),
-            self.stmt is LoadEAddr ==> enc_ok(r, enc_spec(self.stmt, self.line)),
-            self.stmt is Not ==> enc_ok(r, enc_spec(self.stmt, self.line)),
-            self.stmt is Return ==> enc_ok(r, enc_spec(self.stmt, self.line)),
-            self.stmt is Interrupt ==> enc_ok(r, enc_spec(self.stmt, self.line)),
-            self.stmt is Store ==> enc_ok(r, enc_spec(self.stmt, self.line)),
-            self.stmt is StoreInd ==> enc_ok(r, enc_spec(self.stmt, self.line)),
-            self.stmt is StoreOffs ==> enc_ok(r, enc_spec(self.stmt, self.line)),
-            self.stmt is Push ==> enc_ok(r, enc_spec(self.stmt, self.line)),
-            self.stmt is Pop ==> enc_ok(r, enc_spec(self.stmt, self.line)),
-            self.stmt is Call ==> enc_ok(r, enc_spec(self.stmt, self.line)),
-            self.stmt is Rets ==> enc_ok(r, enc_spec(self.stmt, self.line)),
-            self.stmt is RawWord ==> enc_ok(r, enc_spec(self.stmt, self.line)),
-            self.stmt is Trap ==> enc_ok(r, enc_spec(self.stmt, self.line)),
+            enc_ok(r, enc_spec(self.stmt, self.line)),
